@@ -137,6 +137,15 @@ func FrameTemplates(full bool) []Tmpl {
 			add("udp6-"+itoa(int(sp))+"-"+itoa(int(dp)), refnet.Eth(Bcast, MAC1, 0x86dd, refnet.IP6(LLA1, LLA2, 17, 64, u, -1)))
 		}
 	}
+	// (4b) UDP length field: shorter than the header, one off, larger than the datagram
+	for _, dp := range []uint16{40001, 53, 67, 5353} {
+		for _, ul := range []int{0, 1, 7, 8, 9, 23, 25, 255, 65535} {
+			u := refnet.UDP(40000, dp, Pat(16, byte(dp)))
+			u[4], u[5] = byte(ul>>8), byte(ul)
+			add("udp4-len"+itoa(ul)+"-"+itoa(int(dp)), refnet.Eth(Bcast, MAC1, 0x0800, refnet.IP4(IP4a, IP4b, 17, u, refnet.IP4Opt{})))
+			add("udp6-len"+itoa(ul)+"-"+itoa(int(dp)), refnet.Eth(Bcast, MAC1, 0x86dd, refnet.IP6(LLA1, LLA2, 17, 64, u, -1)))
+		}
+	}
 	// (5) TCP data offsets
 	for _, doff := range []int{0, 4, 5, 6, 15} {
 		seg := refnet.TCP(40000, 80, 1, 2, doff, 0x18, Pat(10, 9))
